@@ -557,6 +557,11 @@ func c18LingeringResponse(u *vfUnit, e *c18Env) {
 		// second session: new server value, own transport, ordinary traffic with bytes of its own
 		cfg2, path2, clean2 := mk("second-"+strings.Repeat("Z", 200), 'Z')
 		rs2, err := vfRawConnect(cfg2, vfPipeOpts{}, true)
+		if err == nil && srv.alloc() != nil && srv.alloc() == rs2.S.alloc() {
+			// (both servers were configured with the same option VALUE when the unit shares one: an allocator belongs to
+			// one session, order ids of different sessions mean nothing to each other)
+			u.Violation("allocator-shared-between-sessions:"+e.kind.String(), label+": two servers configured with one allocator option value use one and the same allocator", nil)
+		}
 		if err == nil {
 			var reqs []vfPkt
 			for i := 0; i < 6; i++ {
